@@ -48,6 +48,7 @@ def parseOp : SExp → Option Op
   | .list [.atom "gget", ln, gn] => do some (.gget (← asStr? ln) (← asStr? gn))
   | .list [.atom "gnew", ln, gn] => do some (.gnew (← asStr? ln) (← asStr? gn))
   | .list [.atom "gdel", ln, gn] => do some (.gdel (← asStr? ln) (← asStr? gn))
+  | .list [.atom "grename", ln, old, new] => do some (.grename (← asStr? ln) (← asStr? old) (← asStr? new))
   | .list [.atom "gset", ln, gn, v] => do some (.gset (← asStr? ln) (← asStr? gn) (← asNat? v))
   | .list [.atom "lnew", ln] => do some (.lnew (← asStr? ln))
   | .list [.atom "ldel", ln] => do some (.ldel (← asStr? ln))
